@@ -12,8 +12,8 @@ import itertools
 from ..absmem import P, World, key
 from ..cexpr import CEval, comments, parse_body
 from ..core import rule
-from ..linear import Poly
-from ..peval import Builtin, Effect, Obj, Opaque, PyExc, SArr, Sym, fromp, topoly
+from ..linear import Lin, Poly
+from ..peval import Builtin, Effect, FloatSym, Obj, Opaque, PyExc, SArr, Sym, fromp, topoly
 from ..spec import array_layout, struct_layout, check_docs
 from ..srcmodel import AnalysisError, norm
 
@@ -852,6 +852,255 @@ def d2i(cx):
                  bad_detail=f"{len(miss)} inner type(s) are not reported ({[getattr(x, 'name', repr(x)) for x in miss]}): their API is not emitted before the container's (unknown type name)", anchor={"struct": "struct::Struct._get_inner_types", "array": "array::Array._get_inner_types", "ref": "ref::Ref._get_inner_types", "unionref": "ref::UnionRef._get_inner_types"}[kind])
 
 
+# ------------------------------------------------------------------------------------------ J3 JSON forms
+@rule("J3", ["C19"], "JSON form of reference-free structs and 1-D arrays: every field/item is emitted (recursively) and constructing the type from the form writes the same bytes")
+def j3(cx):
+    """`_to_json` of the current source is evaluated on an abstract reference-free object (scalar fields, a nested
+    struct, a 1-D array of scalars, a 1-D array of structs, a fixed-length array); the form must name every field /
+    hold every item, recursively; then the type is constructed from that form in the same abstract memory and every
+    word of the new object is compared with the word at the same relative position of the original.  `dispatch_arg`
+    (tuple -> positional, dict -> keywords, anything else -> single argument) and the (classname, data) form of
+    UnionRef._to_json are evaluated as well."""
+    m = cx.m
+    lab = Lab(m)
+    I, W = lab.I, lab.W
+    V = lambda nm: FloatSym(Poly.atom(nm))
+    out = {}
+
+    def thunk():
+        sc = I.global_lookup("scalar", "Float64")
+        i8 = I.global_lookup("scalar", "Int8")
+        T = lab.struct("T", [("v", sc), ("k", i8)])
+        A = lab.array("ArrNFloat64", (None,), (0,), sc)
+        A3 = lab.array("Arr3Float64", (3,), (0,), sc)
+        AT = lab.array("ArrNT", (None,), (0,), T)
+        S = lab.struct("S", [("a", sc), ("t", T), ("arr", A), ("fix", A3), ("arrT", AT), ("b", i8)])
+        args = {"a": V("va"), "t": {"v": V("tv"), "k": V("tk")}, "arr": lab.value("x", [3], elem=lambda k: V(f"x{k}")), "fix": lab.value("f", [3], elem=lambda k: V(f"f{k}")),
+                "arrT": lab.value("y", [2], elem=lambda k: {"v": V(f"yv{k}"), "k": V(f"yk{k}")}), "b": V("vb"), "_buffer": W.buffer}
+        s1 = I.call(S, [], dict(args))
+        out["json"] = I.call(I.getattr(s1, "_to_json"), [], {})
+        farr = [f_ for f_ in S.attrs["_fields"] if I.getattr(f_, "name") == "arr"][0]
+        arr1 = I.call(I.getattr(farr, "__get__"), [s1], {})
+        out["ajson"] = I.call(I.getattr(arr1, "_to_json"), [], {})
+        out["p1"], out["size"] = pol(I.getattr(s1, "_offset")), I.getattr(s1, "_size")
+        mem1 = dict(I.mem)
+        s2 = I.call(S, [out["json"]], {"_buffer": W.buffer})
+        out["p2"], out["size2"] = pol(I.getattr(s2, "_offset")), I.getattr(s2, "_size")
+        a2 = I.call(A, [out["ajson"]], {"_buffer": W.buffer})
+        out["pa1"], out["pa2"], out["asize"] = pol(I.getattr(arr1, "_offset")), pol(I.getattr(a2, "_offset")), I.getattr(a2, "_size")
+        out["mem"] = dict(I.mem)
+        out["mem1"] = mem1
+        # UnionRef form
+        T2 = lab.struct("T2", [("w", sc)])
+        MU = I.global_lookup("ref", "MetaUnionRef")
+        U = I.call(I.class_attrs(MU)["__new__"], [MU, "U", (I.global_lookup("ref", "UnionRef"),), {"_reftypes": (T, T2)}], {})
+        t2 = I.call(T2, [], {"w": V("uw"), "_buffer": W.buffer})
+        u = I.call(U, [t2], {"_buffer": W.buffer})
+        out["ujson"] = I.call(I.getattr(u, "_to_json"), [], {})
+        # dispatch_arg
+        rec = []
+        fb = Builtin("f", lambda *a, **k: rec.append((a, tuple(sorted(k.items())))))
+        da = I.global_lookup("typeutils", "dispatch_arg")
+        for arg in ((1, 2), {"x": 1, "y": 2}, 7, [1, 2]):
+            I.call(da, [fb, arg], {})
+        out["dispatch"] = rec
+        return None
+
+    # first a one-value object: the form may not depend on the VALUE (every path must emit the value itself)
+    small = {}
+
+    def thunk0():
+        sc = I.global_lookup("scalar", "Float64")
+        T1 = lab.struct("T1", [("v", sc)])
+        A1 = lab.array("ArrNFloat64", (None,), (0,), sc)
+        t1 = I.call(T1, [], {"v": V("tv"), "_buffer": W.buffer})
+        a1 = I.call(A1, [lab.value("x", [1], elem=lambda k: V("x0"))], {"_buffer": W.buffer})
+        small["res"] = (I.call(I.getattr(t1, "_to_json"), [], {}), I.call(I.getattr(a1, "_to_json"), [], {}))
+        return small["res"]
+
+    res0 = I.explore(thunk0, max_paths=16)
+    for r in res0:
+        if r["exc"] is not None:
+            continue
+        tj, aj = r["result"]
+        okv = isinstance(tj, dict) and topoly(tj.get("v")) == topoly(V("tv")) and isinstance(aj, (list, tuple)) and len(aj) == 1 and topoly(aj[0]) == topoly(V("x0"))
+        if not okv:
+            conds = " and ".join((("" if d_ else "not ") + t_) for t_, d_ in r["conds"]) or "always"
+            cx.bad(None, construct=f"_to_json of a one-value struct / array gives {tj} / {aj} when {conds}", detail="the form does not carry the value itself for some values: constructing the type from it yields another value (e.g. non-finite floats emitted as null come back as NaN)", anchor="struct::Struct._to_json", sub="value")
+            return
+    res = I.explore(thunk, max_paths=8)
+    if len(res) != 1 or res[0]["exc"] is not None:
+        e = res[0]["exc"]
+        if e is not None and e.etype in ("ValueError", "TypeError", "KeyError", "IndexError"):
+            cx.bad(None, construct="S(json form of an S object)", detail=f"constructing the type from the JSON form of one of its objects raises {e.etype}: {e.msg}", anchor="struct::Struct._to_json")
+            return
+        raise AnalysisError(f"[J3] JSON forms cannot be evaluated: {e.etype if e else 'fork'}: {e.msg if e else res[0]['conds']}")
+    j = out["json"]
+    want = {"a": V("va"), "t": {"v": V("tv"), "k": V("tk")}, "arr": [V("x0"), V("x1"), V("x2")], "fix": [V("f0"), V("f1"), V("f2")], "arrT": [{"v": V("yv0"), "k": V("yk0")}, {"v": V("yv1"), "k": V("yk1")}], "b": V("vb")}
+
+    def same(x, y):
+        if isinstance(y, dict):
+            return isinstance(x, dict) and list(x.keys()) == list(y.keys()) and all(same(x[k], y[k]) for k in y)
+        if isinstance(y, list):
+            return isinstance(x, (list, tuple)) and len(x) == len(y) and all(same(a_, b_) for a_, b_ in zip(x, y))
+        return topoly(x) is not None and topoly(x) == topoly(y)
+
+    cx.check(same(j, want), None, construct=f"Struct._to_json -> {str(j)[:150]}", detail="one key per field (declaration order), nested structs as dicts, arrays as lists of all items",
+             bad_detail=f"the JSON form is {str(j)[:200]}; expected every field by name with nested dict / list forms: {str(want)[:200]}", anchor="struct::Struct._to_json", sub="form")
+    cx.check(same(out["ajson"], want["arr"]), None, construct=f"Array._to_json -> {out['ajson']}", detail="list of all items in index order", bad_detail=f"Array._to_json gives {out['ajson']}, expected {want['arr']}", anchor="array::Array._to_json", sub="form")
+    # round trip: same bytes at the same relative positions
+    for nm, p1, p2, sz in (("struct", out["p1"], out["p2"], out["size"]), ("array", out["pa1"], out["pa2"], out["asize"])):
+        n_words = bad = 0
+        first = None
+        memn = out["mem"]
+        for k, v in out["mem1"].items():
+            try:
+                kp = Lin().poly(ast.parse(k, mode="eval").body)
+            except Exception:
+                continue
+            rel = kp - p1
+            if rel.is_const() and 0 <= rel.const_value() < (sz if isinstance(sz, int) else 10 ** 6):
+                n_words += 1
+                v2 = memn.get(repr(p2 + rel))
+                if v2 is None or topoly(v2) is None or topoly(v) is None or topoly(v2) != topoly(v):
+                    # offsets inside the object are relative: equal; values: equal symbols
+                    bad += 1
+                    first = first or (rel.const_value(), v, v2)
+        cx.need(n_words >= 5, f"[J3] only {n_words} words of the original {nm} found in the abstract memory")
+        cx.check(bad == 0, None, construct=f"{nm}: T(json form) writes {n_words} words identical to the original's", detail="constructing the type from an object's JSON form reproduces the object",
+                 bad_detail=f"{bad} of {n_words} words differ, e.g. at +{first[0] if first else '?'}: original {first[1] if first else '?'!r}, rebuilt {first[2] if first else '?'!r}", anchor="struct::Struct._to_json" if nm == "struct" else "array::Array._to_json", sub="roundtrip")
+    uj = out["ujson"]
+    ok = isinstance(uj, tuple) and len(uj) == 2 and uj[0] == "T2" and same(uj[1], {"w": V("uw")})
+    cx.check(ok, None, construct=f"UnionRef._to_json -> {uj}", detail="(member class name, member form): the (str, data) arm of the union writer consumes it (R14)", bad_detail=f"UnionRef._to_json gives {uj}, expected ('T2', {{'w': ...}})", anchor="ref::UnionRef._to_json", sub="union")
+    d = out["dispatch"]
+    ok = len(d) == 4 and d[0] == ((1, 2), ()) and d[1] == ((), (("x", 1), ("y", 2))) and d[2] == ((7,), ()) and d[3] == (([1, 2],), ())
+    cx.check(ok, None, construct=f"dispatch_arg: tuple -> f(*arg), dict -> f(**arg), other -> f(arg)", detail="constructors accept the tuple / dict forms", bad_detail=f"dispatch_arg calls were {d}", anchor="typeutils::dispatch_arg", sub="dispatch")
+
+
+# ------------------------------------------------------------------------------------------ R10e one locator
+@rule("R10e", ["C10", "C06"], "Array: for every in-range index, get, set and offset-of address the very place where construction stored that item")
+def r10e(cx):
+    """evaluated: 1-D and 2-D arrays (C and Fortran order for 2-D) of statically sized leaves, statically sized
+    compounds and dynamically sized items are built from a value with one tagged element per index; for every index
+    `_get_offset(idx)`, the position `__getitem__(idx)` reads and the position `__setitem__(idx, v)` writes (fresh
+    write for leaves, in-place `_update` for compounds) must all equal the position at which construction wrote the
+    element of that index."""
+    m = cx.m
+    lab = Lab(m)
+    I, W = lab.I, lab.W
+    n = 0
+    for nd, order, static_shape in ((1, (0,), False), (2, (0, 1), False), (2, (1, 0), False), (1, (0,), True), (2, (0, 1), True), (2, (1, 0), True)):
+        for itemkind in ("leaf", "compound", "dynamic"):
+            dims = [3, 2][:nd]
+            out = {}
+
+            def thunk():
+                if itemkind == "leaf":
+                    item = W.desc("it", 8)
+                elif itemkind == "compound":
+                    item = W.desc("it", 24, has_update=True)
+                else:
+                    item = W.desc("it", None)
+                cls = lab.array("Arr", list(dims) if static_shape else [None] * nd, order, item)
+                val = lab.value("e", dims)
+                I.call(I.getattr(cls, "_to_buffer"), [W.buffer, Sym(OFF), val, I.call(I.getattr(cls, "_inspect_args"), [val], {})], {})
+                built = {}
+                for e in I.effects:
+                    if e.kind == "child_write" and isinstance(e.value, Opaque):
+                        built[e.value.tag] = pol(e.pos)
+                out["built"] = built
+                h = I.call(I.getattr(cls, "_from_buffer"), [W.buffer, Sym(OFF)], {})
+                rows = []
+                for idx in itertools.product(*[range(d) for d in dims]):
+                    key = idx[0] if nd == 1 else tuple(idx)
+                    o = I.call(I.getattr(h, "_get_offset"), [key], {})
+                    n0 = len(I.effects)
+                    I.call(I.getattr(h, "__getitem__"), [key], {})
+                    rd = [pol(e.pos) for e in I.effects[n0:] if e.kind == "child_read"]
+                    n1 = len(I.effects)
+                    I.call(I.getattr(h, "__setitem__"), [key, Opaque("newval")], {})
+                    wr = [(e.kind, pol(e.pos)) for e in I.effects[n1:] if e.kind in ("child_write", "view_update") and getattr(e, "value", None) is not None and isinstance(e.value, Opaque) and e.value.tag == "newval"]
+                    rows.append((idx, pol(o), rd, wr))
+                out["rows"] = rows
+
+            res = I.explore(thunk, max_paths=64)
+            label = f"{nd}-D array ({'static' if static_shape else 'dynamic'} shape), order {order}, {itemkind} items"
+            cx.recog(bool(res) and all(r["exc"] is None for r in res), None, f"R10e {label}: evaluation raises {[r['exc'].etype for r in res if r['exc']][:1]}")
+            bad = ""
+            for idx, o, rd, wr in out.get("rows", []):
+                n += 1
+                tag = "e" + _idx(idx)
+                place = out["built"].get(tag)
+                if place is None:
+                    cx.recog(False, None, f"R10e {label}: construction wrote no element tagged {tag} ({sorted(out['built'])[:4]})")
+                if o != place:
+                    bad = f"_get_offset{list(idx)} = {o!r}, construction stored that item at {place!r}"
+                elif not rd or rd[-1] != place:
+                    bad = f"__getitem__{list(idx)} reads at {rd!r}, the item is at {place!r}"
+                elif len(wr) != 1 or wr[0][1] != place:
+                    bad = f"__setitem__{list(idx)} writes at {[w[1] for w in wr]!r}, the item is at {place!r}"
+                elif (wr[0][0] == "view_update") != (itemkind == "compound"):
+                    bad = f"__setitem__{list(idx)} on a {itemkind} item goes through {wr[0][0]}"
+                if bad:
+                    break
+            cx.check(not bad, None, construct=f"{label}: {len(out.get('rows', []))} indices, offset-of = read position = write position = construction position", detail="one locator for all accessors",
+                     bad_detail=f"reads and writes of one index address different bytes: {bad}", anchor="array::Array._get_offset")
+    cx.need(n >= 40, f"only {n} index cases")
+
+
+# ------------------------------------------------------------------------------------------ G3e index refusal
+@rule("G3e", ["C11"], "an index outside the shape is refused by every Array accessor (read, write, offset-of) for static- and dynamic-item arrays, before any read or write")
+def g3e(cx):
+    """evaluated: 1-D and 2-D arrays with statically and dynamically sized items; indices -1, dim, dim+5 and (for 2-D)
+    a bad component in either position; `__getitem__`, `__setitem__`, `_get_offset` must raise IndexError, and
+    `__setitem__` must not have written anything.  In-range corner indices (0, dim-1) must NOT raise."""
+    m = cx.m
+    lab = Lab(m)
+    I, W = lab.I, lab.W
+    n = 0
+    for nd in (1, 2):
+        for itemkind in ("static", "dynamic"):
+            dims = [2, 3][:nd]
+            bads = [(-1,), (2,), (7,)] if nd == 1 else [(-1, 0), (0, -1), (2, 0), (0, 3), (1, 9)]
+            goods = [(0,), (1,)] if nd == 1 else [(0, 0), (1, 2)]
+            for acc in ("__getitem__", "__setitem__", "_get_offset"):
+                for idx, expect in [(b, "refuse") for b in bads] + [(g, "accept") for g in goods]:
+                    n += 1
+                    out = {}
+
+                    def thunk():
+                        if itemkind == "static":
+                            item = W.desc("it", 8)
+                        else:
+                            item = W.desc("it", None)
+                            item.attrs["_inspect_args"] = Builtin("it._inspect_args", lambda *a, **k: W.info(size=Sym(Poly.atom("n_" + (a[0].tag if a and isinstance(a[0], Opaque) else "x")))))
+                        cls = lab.array("Arr", [None] * nd, tuple(range(nd)), item)
+                        val = lab.value("e", dims)
+                        I.call(I.getattr(cls, "_to_buffer"), [W.buffer, Sym(OFF), val, I.call(I.getattr(cls, "_inspect_args"), [val], {})], {})
+                        h = I.call(I.getattr(cls, "_from_buffer"), [W.buffer, Sym(OFF)], {})
+                        n0 = len(I.effects)
+                        out["n0"] = n0
+                        key = idx[0] if nd == 1 else tuple(idx)
+                        if acc == "__setitem__":
+                            I.call(I.getattr(h, acc), [key, Opaque("newval")], {})
+                        else:
+                            I.call(I.getattr(h, acc), [key], {})
+                        return None
+
+                    res = I.explore(thunk, max_paths=16)
+                    label = f"{nd}-D array of {itemkind}-size items: {acc}{list(idx)}"
+                    anchor = f"array::Array.{acc}"
+                    if expect == "refuse":
+                        accepted = [r for r in res if r["exc"] is None or r["exc"].etype != "IndexError"]
+                        wrote = any(any(e.kind in ("child_write", "write", "write_array", "view_update") for e in r["effects"][out.get("n0", 0):]) for r in res)
+                        cx.check(not accepted and not wrote, None, construct=label, detail="refused with IndexError before anything is read or written",
+                                 bad_detail=("an out-of-range index is accepted" + (" (negative indices wrap around silently in the cached offset table)" if idx and min(idx) < 0 else "") if accepted else "something is written before the refusal"), anchor=anchor, sub="refuse")
+                    else:
+                        okp = [r for r in res if r["exc"] is None]
+                        cx.check(bool(okp), None, construct=label, detail="in-range index accepted", bad_detail=f"an in-range index is refused: {res[0]['exc'].etype if res[0]['exc'] else ''}", anchor=anchor, sub="accept")
+    cx.need(n >= 60, f"only {n} index cases")
+
+
 # ------------------------------------------------------------------------------------------ R13 shape refusal
 @rule("R13", ["C11", "C03"], "construction / whole-array update from an array-like value of another shape is refused before anything is allocated or written")
 def r13(cx):
@@ -1223,13 +1472,42 @@ def l6(cx):
     if ok:
         ok = I.getattr(out["info"], "size") == 18 and out["mem"].get(repr(OFF)) == 18 and not [e for e in out["eff"] if e.kind in ("update_from_buffer", "update_from_xbuffer")]
     cx.check(ok, None, construct="String(10): size word 18, no data written (reads back as the empty string from zeroed storage)", detail="capacity form reserves capacity+8 bytes", bad_detail="capacity form does not plan capacity+8 bytes / writes data", anchor="string::MetaString._inspect_args")
-    # reader
-    gd = m.func("string::MetaString._get_data")
-    src = norm(gd)
-    ok = "ll = Int64._from_buffer(buffer, offset)" in src and "buffer.to_bytearray(offset + 8, ll - 8)" in src
-    cx.check(ok, gd, construct="_get_data: size word ll, then ll-8 bytes at offset+8", detail="reader covers exactly the written payload", bad_detail="string reader does not read (size-8) bytes at offset+8")
-    fb = m.func("string::MetaString._from_buffer")
-    cx.check(".decode(encoding).rstrip('\\x00')" in norm(fb), fb, construct="_from_buffer: decode, strip NUL padding", detail="trailing NULs are padding", bad_detail="string reader does not strip the NUL padding", sub="read")
+    # reader (evaluated): after writing each string, _from_buffer must read exactly the written payload
+    # ([off+8, off+size)) and give the string back without the NUL padding
+    for s in STRINGS:
+        out = {}
+
+        def thunk3():
+            String = I.global_lookup("string", "String")
+            info = I.call(I.getattr(String, "_inspect_args"), [s], {})
+            I.call(I.getattr(String, "_to_buffer"), [W.buffer, Sym(OFF), s, info], {})
+            ups = [e for e in I.effects if e.kind == "update_from_buffer"]
+            payload = ups[-1].args[1] if ups else b""
+            reads = []
+            old = W.buffer.attrs["to_bytearray"]
+
+            def tba(*a, **k):
+                pos = a[0] if a else k.get("offset")
+                nb = a[1] if len(a) > 1 else k.get("nbytes")
+                reads.append((pos, nb))
+                return payload
+
+            W.buffer.attrs["to_bytearray"] = Builtin("buffer.to_bytearray", tba)
+            try:
+                out["val"] = I.call(I.getattr(String, "_from_buffer"), [W.buffer, Sym(OFF)], {})
+            finally:
+                W.buffer.attrs["to_bytearray"] = old
+            out["reads"] = reads
+            out["payload"] = payload
+
+        res = _run(lab, thunk3)
+        data = s.encode("utf8")
+        want = (len(data) + 1 + 8 + 7) & -8
+        cx.recog(len(res) == 1 and res[0]["exc"] is None, None, f"String._from_buffer({s!r}): evaluation did not end in one normal path ({res[0]['exc'] if res else ''})")
+        rd = out.get("reads", [])
+        okr = len(rd) == 1 and pol(rd[0][0]) == OFF + Poly.const(8) and pol(rd[0][1]) == Poly.const(want - 8)
+        cx.check(okr, None, construct=f"String({s!r}) read back: {want - 8} bytes at off+8", detail="reader covers exactly the written payload", bad_detail=f"string reader does not read (size-8) bytes at offset+8: reads {rd!r}", anchor="string::MetaString._get_data", sub="read.extent")
+        cx.check(out.get("val") == s, None, construct=f"String({s!r}) read back: value", detail="decoded, NUL padding stripped", bad_detail=f"string reader returns {out.get('val')!r} for a stored {s!r}", anchor="string::MetaString._from_buffer", sub="read")
 
 
 # ------------------------------------------------------------------------------------------ C side
